@@ -27,6 +27,8 @@ func runC19(r *oblig.Report) {
 	w.R87(r)
 	r.Rule("R8.7b", "instance-table", "every hard-coded LL(1) lookahead test of the generated Go parser names the lookahead set of an alternative of its decision state in the embedded automaton", 40)
 	w.R87Lookahead(r, "R8.7b")
+	r.Rule("R8.7c", "instance-table", "the generated Go parser declares one parser method per grammar rule and no hand-written function", 1)
+	w.R87Decls(r, "R8.7c")
 	// R1.5 needs the type-checked Go packages
 	if p, err := load.LoadPatterns(false, "./transformer", "./gen"); err != nil {
 		r.Unknown("load", "load:transformer+gen", "-", err.Error())
